@@ -41,6 +41,8 @@ def _run(B, cfg, a, Lh, n, m, kap=None):
     h = Lh / n
     model = fd.convection.model(a)
     num = fd.xnum.extrapolk(kap) if cfg['num'] == 'extrapolk' else getattr(fd.xnum, cfg['num'])()
+    for other in (lambda: fd.xnum.extrapolk(B.const('7/10')), fd.xnum.extrapol2, fd.xnum.centered, fd.xnum.extrapol3, fd.xnum.quick):
+        other()         # schemes created after the one under test must not change it (no class-level state)
     rhs = fd.modeldisc.fvm(model, mesh, num)
     xc = mesh.centers()
     u = B.array([_cellavg(B, xc[j], h, m) if m > 0 else xc[j] * 0 + 1 for j in range(n)])
